@@ -1275,3 +1275,81 @@ func ruleCommitAll(c *Ctx, r *Report) {
 	}
 	r.analysed(rule, fname(compile))
 }
+
+// ---------------------------------------------------------------------------
+// R-COMMA-FIXED (C18; added after seed C18c): ','/2 cannot be given any other operator definition,
+// whatever priority and specifier are asked for (ISO 8.14.3.3 l). In the validation of op/3 the branch
+// decisions taken in the arm for the name ',' do not depend on the requested priority or specifier: the
+// arm's conditions have no data dependence on those parameters. (A test that looks at the class of the
+// REQUESTED specifier lets op(200, fy, ',') through and the reader then accepts `(, a)`.)
+
+func ruleCommaFixed(c *Ctx, r *Report) {
+	const rule = "R-COMMA-FIXED"
+	fn := c.fn("validateOp")
+	comma := c.global("atomComma")
+	if fn == nil || comma == nil {
+		r.undecided(rule, "anchor", "-", "locate validateOp and atomComma", "not found")
+		return
+	}
+	desc := "the decision about the operator ',' does not depend on the requested priority or specifier"
+	// parameters that describe the request
+	var req []ssa.Value
+	for _, p := range fn.Params {
+		if isEngNamed(p.Type(), "Integer") || isEngNamed(p.Type(), "operatorSpecifier") {
+			req = append(req, p)
+		}
+	}
+	// the arm: blocks reached only across the edge name == atomComma
+	isCommaCond := func(cond ssa.Value) bool {
+		bo, ok := cond.(*ssa.BinOp)
+		if !ok || bo.Op != token.EQL {
+			return false
+		}
+		for _, side := range []ssa.Value{bo.X, bo.Y} {
+			if ld, ok := side.(*ssa.UnOp); ok && ld.Op == token.MUL && ld.X == ssa.Value(comma) {
+				return true
+			}
+		}
+		return false
+	}
+	n := 0
+	var offending ssa.Instruction
+	dep := ""
+	found := false
+	for _, b := range fn.Blocks {
+		iff, ok := b.Instrs[len(b.Instrs)-1].(*ssa.If)
+		if !ok {
+			continue
+		}
+		if isCommaCond(iff.Cond) {
+			found = true
+			continue
+		}
+		// is b inside the arm? unreachable from the entry once the true edges of `name == ','` are cut
+		inArm := !reachableAvoiding(fn, b, func(from *ssa.BasicBlock, i int, cond ssa.Value) bool {
+			return isCommaCond(cond) && i == 0
+		})
+		if !inArm {
+			continue
+		}
+		n++
+		dataSlice(iff.Cond, func(v ssa.Value) bool {
+			for _, q := range req {
+				if v == q {
+					offending, dep = iff, valName(q)
+				}
+			}
+			return true
+		})
+	}
+	key := fname(fn) + "/comma-arm"
+	switch {
+	case !found:
+		r.bad(rule, key, c.Pos(fn.Pos()), desc, "no arm for the name ',' found in the validation")
+	case offending != nil:
+		r.bad(rule, key, c.at(offending), desc, "a branch in the arm for ',' depends on the parameter "+dep+": some requested specifiers or priorities get through")
+	default:
+		r.ok(rule, key, c.Pos(fn.Pos()), desc, fmt.Sprintf("%d branch conditions in the arm, none depends on the request", n), true)
+	}
+	r.analysed(rule, fname(fn))
+}
